@@ -29,7 +29,9 @@ key=lambda l: tuple(l.split('\t')[:2])
 old={key(l):l for l in open(sys.argv[1]) if l.strip()}
 new={key(l):l for l in open(sys.argv[2]) if l.strip()}
 names={k[0] for k in new}
-old={k:v for k,v in old.items() if k[0] not in names}
+import os
+if not os.environ.get('BEN_CHECKS'):
+    old={k:v for k,v in old.items() if k[0] not in names}   # a full run replaces all rows of its patches; a restricted run only its own (patch, check) rows
 old.update(new)
 open(sys.argv[1],'w').write(''.join(old[k] for k in sorted(old)))
 PY
